@@ -80,6 +80,9 @@ type batch struct {
 	// pulled apart while other calls go on receiving. Debug: the clients print their hex dumps (muted).
 	PauseUs int  `json:"pause_us,omitempty"`
 	Debug   bool `json:"debug,omitempty"`
+	// Strays: on the broadcast path every request is first answered by this many OTHER controllers (same function, other serial
+	// numbers - a broadcast reaches everybody, and some firmware answers regardless), then by its own
+	Strays int `json:"stray_replies,omitempty"`
 }
 
 var ops = []string{"GetCardByID", "GetCardByIndex", "GetEvent", "GetTimeProfile", "GetDoorControlState", "SetDoorControlState", "GetStatus", "OpenDoor", "GetTime", "PutCard", "GetListener", "SetAddress"}
@@ -91,6 +94,9 @@ func reply(req []byte) []byte {
 	b := make([]byte, 64)
 	serial := spec.LE32(req[4:])
 	spec.Header(b, 0x17, req[1], serial)
+	if req[1] == 0x20 && serial%2 == 1 {
+		b[0] = 0x19 // (v6.62 firmware answers a status request with this protocol id)
+	}
 	// dates: half of them on the days of this process zone that have no local midnight (all replies stay valid)
 	day := func(k uint32) spec.Civil { return replyDays[int(k%uint32(len(replyDays)))] }
 	stamp := func(p []byte, k uint32) {
@@ -297,7 +303,21 @@ func runBatch(b batch, scale int) *rp.Fail {
 		}
 		e.PlayTCP(r, []farm.Action{{Delay: delayOf(r.Data), Data: reply(r.Data)}})
 	}
-	bcast, err := f.UDP([4]byte{127, 0, 2, 1}, 0, udpHandler)
+	bcastHandler := udpHandler
+	if b.Strays > 0 {
+		bcastHandler = func(e *farm.UDP, r farm.Received) {
+			if len(r.Data) == 64 && r.Data[1] != 0x96 && !(r.Data[1] == 0x94 && spec.LE32(r.Data[4:]) == 0) {
+				for i := 0; i < b.Strays; i++ {
+					stray := append([]byte(nil), r.Data...)
+					spec.PutLE32(stray[4:], spec.LE32(r.Data[4:])+uint32(1000+i))
+					d := reply(stray)
+					e.Conn.WriteToUDPAddrPort(d, r.From)
+				}
+			}
+			udpHandler(e, r)
+		}
+	}
+	bcast, err := f.UDP([4]byte{127, 0, 2, 1}, 0, bcastHandler)
 	if err != nil {
 		ev.HarnessError("farm: %v", err)
 		return nil
@@ -583,7 +603,7 @@ func check(b batch) *rp.Fail {
 func genBatch(t *rapid.T) batch {
 	b := batch{Clients: rapid.IntRange(1, 3).Draw(t, "clients"), FixedPort: rapid.IntRange(0, 2).Draw(t, "fixed") == 0, TimeoutMs: rapid.SampledFrom([]int{400, 600, 1000}).Draw(t, "timeout"),
 		Discovery: rapid.IntRange(0, 2).Draw(t, "discovery") == 0, Listen: rapid.IntRange(0, 2).Draw(t, "listen") == 0,
-		PauseUs: rapid.SampledFrom([]int{0, 0, 0, 100, 1000, 5000}).Draw(t, "pause"), Debug: gen.Debug(t, "debug")}
+		PauseUs: rapid.SampledFrom([]int{0, 0, 0, 100, 1000, 5000}).Draw(t, "pause"), Debug: gen.Debug(t, "debug"), Strays: rapid.SampledFrom([]int{0, 0, 1, 3, 12}).Draw(t, "strays")}
 	for i := 0; i < b.Clients; i++ {
 		b.AnyAddr = append(b.AnyAddr, rapid.IntRange(0, 2).Draw(t, "bind.any") == 0)
 		b.Mapped = append(b.Mapped, rapid.IntRange(0, 2).Draw(t, "mapped") == 0)
